@@ -265,9 +265,12 @@ def _below(child, parent):
     return child[:len(parent)] == parent
 
 
+K = param('K', 3)
+
+
 def c_commonprefix(p1: List[int], p2: List[int], p3: List[int]) -> bool:
-    """commonprefix is the deepest common ancestor-or-self
-    pre: len(p1) <= M and len(p2) <= M and len(p3) <= M
+    """commonprefix is the deepest common ancestor-or-self (file paths: non-empty)
+    pre: 1 <= len(p1) <= M and 1 <= len(p2) <= M and 1 <= len(p3) <= M and (K == 3 or p3 == p2)
     pre: all(0 <= i < 3 for i in p1) and all(0 <= i < 3 for i in p2) and all(0 <= i < 3 for i in p3)
     post: _
     """
@@ -284,7 +287,7 @@ def c_commonprefix(p1: List[int], p2: List[int], p3: List[int]) -> bool:
 
 def t_uniquetrees(p1: List[int], p2: List[int], p3: List[int]) -> bool:
     """uniquetrees: a subset, covering everything, no element below another
-    pre: len(p1) <= M and len(p2) <= M and len(p3) <= M
+    pre: len(p1) <= M and len(p2) <= M and len(p3) <= M and (K == 3 or p3 == p2)
     pre: all(0 <= i < 3 for i in p1) and all(0 <= i < 3 for i in p2) and all(0 <= i < 3 for i in p3)
     post: _
     """
